@@ -3,6 +3,7 @@ package sack
 import (
 	"time"
 
+	"github.com/DataDog/datadog-traceroute/common"
 	V "github.com/DataDog/datadog-traceroute/zzverif"
 	N "github.com/DataDog/datadog-traceroute/zzvnet"
 )
@@ -19,9 +20,14 @@ func Verif_C11_cross_sack() {
 	dB.localPort = V.U16("sport-B")
 	V.Assume(dB.localPort != dA.localPort)
 	dB.state = &sackTCPState{localInitSeq: V.U32("isn-B"), localInitAck: V.U32("iack-B")}
-	dist := dB.state.localInitSeq - dA.state.localInitSeq
-	V.Assume(dist > 255)
-	V.Assume(dist < 0xffffff00)
+	form := V.ParamInt("form", 0)
+	if form == 0 {
+		// only the ICMP path (quoted source port not compared under relaxed checking) needs the sequence windows to
+		// differ; TCP segments are told apart by the local port, whatever the two sequence spaces look like
+		dist := dB.state.localInitSeq - dA.state.localInitSeq
+		V.Assume(dist > 255)
+		V.Assume(dist < 0xffffff00)
+	}
 	_ = target
 	for t := min; ; t++ {
 		V.Assert(dB.SendProbe(t) == nil, "send/no-error")
@@ -34,7 +40,7 @@ func Verif_C11_cross_sack() {
 	V.Assume(t <= m)
 	pr := sinkA.Pkts[V.Concretize(int(t-min))]
 	var P []byte
-	switch V.ParamInt("form", 0) {
+	switch form {
 	case 0:
 		P = N.ICMPError4(pr, 11, 0, 28, 0, 0)
 	case 1: // duplicate ACK on A's connection selectively acknowledging A's probe
@@ -43,9 +49,12 @@ func Verif_C11_cross_sack() {
 		opts = append(opts, be32(edge)...)
 		opts = append(opts, be32(edge+1)...)
 		P = vACK(pr, opts)
+	case 2: // plain ACK (no SACK block) on A's connection: for A it means "SACK unsupported"; B must not be aborted by it
+		P = vACK(pr, []byte{1, 1, 1, 1})
 	}
 	srcB.Next = P
 	resp, rerr := dB.ReceiveProbe(100 * time.Millisecond)
 	V.Assert(V.All(rerr != nil, resp == nil), "C11/reply-to-another-run-is-not-a-hop")
+	V.Assert(common.CheckProbeRetryable("ReceiveProbe", rerr), "C11/another-runs-packet-does-not-abort-this-run")
 	V.Reach("end")
 }
